@@ -14,6 +14,7 @@ import (
 	"math"
 	"reflect"
 	"regexp"
+	"runtime/debug"
 	"strings"
 	"sync"
 	"sync/atomic"
@@ -51,7 +52,7 @@ type vfC45Plan struct {
 
 func vfC45GenPlan(kind int) func(rt *rapid.T) vfC45Plan {
 	return func(rt *rapid.T) vfC45Plan {
-		g := &vfC45G{rt: rt, budget: vfC45FieldBudet}
+		g := &vfC45G{rt: rt, budget: vfC45FieldBudet, kind: kind, wild: rapid.SampledFrom([]int{0, 0, 0, 1, 1, 2}).Draw(rt, "wild")}
 		mt, err := protoregistry.GlobalTypes.FindMessageByName(protoreflect.FullName(vfC45Roots[kind]))
 		if err != nil {
 			panic("root type not linked: " + vfC45Roots[kind])
@@ -440,7 +441,7 @@ type vfC45Out struct {
 func vfC45Parse(kind int, a *anypb.Any, bc *bootstrap.Config, sc *bootstrap.ServerConfig) (out vfC45Out, panicked string) {
 	defer func() {
 		if x := recover(); x != nil {
-			panicked = fmt.Sprint(x)
+			panicked = fmt.Sprint(x) + " at " + vfC45Stack()
 		}
 	}()
 	switch kind {
@@ -457,6 +458,49 @@ func vfC45Parse(kind int, a *anypb.Any, bc *bootstrap.Config, sc *bootstrap.Serv
 		n, u, err := unmarshalEndpointsResource(a)
 		return vfC45Out{n, u, err}, ""
 	}
+}
+
+// vfC45Stack returns the grpc frames of the current (panicking) stack, innermost
+// first, as "function (file:line)", without addresses.
+func vfC45Stack() string {
+	var out []string
+	lines := strings.Split(string(debug.Stack()), "\n")
+	for i := 0; i+1 < len(lines); i++ {
+		fn, loc := strings.TrimSpace(lines[i]), strings.TrimSpace(lines[i+1])
+		if !strings.HasPrefix(fn, "google.golang.org/grpc/") || !strings.HasPrefix(loc, "/") {
+			continue
+		}
+		if strings.Contains(loc, "verif_c45") || strings.Contains(loc, "verifkit") {
+			continue
+		}
+		if j := strings.LastIndex(fn, "("); j > 0 {
+			fn = fn[:j]
+		}
+		if j := strings.Index(loc, " +0x"); j > 0 {
+			loc = loc[:j]
+		}
+		if j := strings.LastIndex(loc, "/"); j > 0 {
+			loc = loc[j+1:]
+		}
+		out = append(out, strings.TrimPrefix(fn, "google.golang.org/grpc/")+" ("+loc+")")
+		if len(out) >= 6 {
+			break
+		}
+	}
+	return strings.Join(out, " <- ")
+}
+
+// Known-finding signatures (precise predicates over the panic site).
+const vfC45SigRBACNil = "c45.rbac_per_route_without_rbac_panics"
+
+func vfC45PanicSig(pan string) string {
+	// RBACPerRoute override whose rbac field is unset: parseConfig(nil)
+	// dereferences rbacCfg.Rules.
+	if strings.Contains(pan, "nil pointer dereference at internal/xds/httpfilter/rbac.parseConfig (") &&
+		strings.Contains(pan, "<- internal/xds/httpfilter/rbac.builder.ParseFilterConfigOverride (") {
+		return vfC45SigRBACNil
+	}
+	return ""
 }
 
 var vfC45Counts [4]struct{ total, accepted, deep atomic.Int64 }
@@ -503,11 +547,15 @@ func vfC45Run(_ *testing.T, p vfC45Plan) vk.Result {
 	res := vk.Result{Classes: []string{kn}}
 	o1, pan := vfC45Parse(p.Kind, mk(), bc, sc)
 	if pan != "" {
-		return vk.Bad("unmarshal of a %s resource panicked: %s (type_url %q, %d bytes, env %#x)", kn, pan, p.TypeURL, len(p.Value), p.Env)
+		r := vk.Bad("unmarshal of a %s resource panicked: %s (type_url %q, %d bytes, env %#x)", kn, pan, p.TypeURL, len(p.Value), p.Env)
+		r.Sig = vfC45PanicSig(pan)
+		return r.With(kn + ":panic")
 	}
 	o2, pan := vfC45Parse(p.Kind, mk(), bc, sc)
 	if pan != "" {
-		return vk.Bad("second unmarshal of a %s resource panicked: %s", kn, pan)
+		r := vk.Bad("second unmarshal of a %s resource panicked (the first did not: map iteration order): %s", kn, pan)
+		r.Sig = vfC45PanicSig(pan)
+		return r.With(kn + ":panic")
 	}
 	if (o1.err == nil) != (o2.err == nil) || o1.name != o2.name {
 		return vk.Bad("%s: not deterministic: first (name %q, err %v), second (name %q, err %v)", kn, o1.name, o1.err, o2.name, o2.err)
@@ -521,7 +569,7 @@ func vfC45Run(_ *testing.T, p vfC45Plan) vk.Result {
 			res.NonTrivial = true
 			res.Classes = append(res.Classes, kn+":rejected_deep", kn+":err:"+vfC45ErrClass(o1.err))
 		} else {
-			res.Classes = append(res.Classes, kn+":rejected_shallow")
+			res.Classes = append(res.Classes, kn+":rejected_shallow", kn+":shallow:"+vfC45ErrClass(o1.err))
 		}
 		// a rejected resource yields the zero update
 		if !reflect.ValueOf(o1.u).IsZero() {
